@@ -19,6 +19,10 @@ RULE = (
     "executions = min(k+1, max_tries), unlisted re-raised at once. distinct = (helper, input hash); non-trivial = at "
     "least 2 elements."
 )
+RULE += (
+    " Keys need 1-3 requests in a row, and the keys of some elements (last, first, a random subset) answer at "
+    "once: the number of flushes must equal the number of rounds."
+)
 ASSUMPTIONS = ["key/predicate twins are pure, so the builtin's result is well defined"]
 UNIT_TIMEOUT = {"quick": 200, "thorough": 2400}
 
